@@ -180,10 +180,23 @@ def run_native(ctx, runs, max_len):
                 f.write(seedtxt)
     env = dict(os.environ, ASAN_OPTIONS="detect_leaks=0:abort_on_error=0:allocator_may_return_null=1",
                UBSAN_OPTIONS="print_stacktrace=1")
-    r = subprocess.run([exe, corpus, "-seed=%d" % (ctx.hseed("native") % (2 ** 31 - 1) + 1), "-runs=%d" % runs,
-                        "-max_len=%d" % max_len, "-print_final_stats=1", "-artifact_prefix=%s/" % work,
-                        "-rss_limit_mb=3000", "-timeout=60"],
-                       capture_output=True, text=True, env=env, errors="replace", preexec_fn=_unlimit_as)
+    import tempfile
+    import time
+
+    errf = tempfile.TemporaryFile(mode="w+", errors="replace")
+    proc = subprocess.Popen([exe, corpus, "-seed=%d" % (ctx.hseed("native") % (2 ** 31 - 1) + 1), "-runs=%d" % runs,
+                             "-max_len=%d" % max_len, "-print_final_stats=1", "-artifact_prefix=%s/" % work,
+                             "-rss_limit_mb=3000", "-timeout=60"],
+                            stdout=subprocess.DEVNULL, stderr=errf, env=env, preexec_fn=_unlimit_as)
+    while proc.poll() is None:
+        ctx.heartbeat()
+        time.sleep(2)
+    errf.seek(0)
+
+    class r:  # noqa: N801
+        returncode = proc.returncode
+        stderr = errf.read()[-200000:]
+
     execs = 0
     for line in r.stderr.splitlines():
         if line.startswith("stat::number_of_executed_units:"):
